@@ -218,6 +218,34 @@ def rule_r1(ctx) -> List[R.Inst]:
                                 construct=f"{key}: " + "; ".join(probs)))
         else:
             insts.append(R.ok(rid, key, file, assigned[k][1].lineno, idiom=f"'{fmt}' x{count} = {size} bytes -> self.{nm}"))
+    # character fields: NUL padding removed, decoded as ASCII with other bytes dropped (what the library defines for these fields:
+    # the titles in the wild are EUC-KR, of which only the ASCII part is kept)
+    dr = next((n for n in ast.walk(rm.node) if isinstance(n, ast.FunctionDef) and n.name == "decode_replace"), None)
+    if dr is None:
+        # the helper at module level (or in the class)
+        dr = next((n for n in ast.walk(M.mods[rm.mod].tree) if isinstance(n, ast.FunctionDef) and n.name == "decode_replace"), None)
+    decs = [n for n in ast.walk(dr if dr is not None else rm.node) if isinstance(n, ast.Call) and call_name(n) == "decode" and isinstance(n.func, ast.Attribute)]
+    if not decs:
+        insts.append(R.undec(rid, "char-decode", file, (dr or rm.node).lineno, "decoding of the character fields not found"))
+    else:
+        d0 = decs[0]
+        kw = {k.arg: k.value for k in d0.keywords}
+        codec = d0.args[0] if d0.args else kw.get("encoding")
+        errs = d0.args[1] if len(d0.args) > 1 else kw.get("errors")
+        cname = codec.value.lower().replace("_", "-") if isinstance(codec, ast.Constant) and isinstance(codec.value, str) else None
+        ename = errs.value if isinstance(errs, ast.Constant) else None
+        strips_nul = any(isinstance(x, ast.Constant) and x.value in (b"\x00", 0) for x in ast.walk(dr if dr is not None else rm.node))
+        if cname in ("ascii", "us-ascii") and ename == "ignore" and strips_nul:
+            insts.append(R.ok(rid, "char-decode", file, d0.lineno, idiom="NULs removed, ASCII kept, other bytes dropped"))
+        else:
+            why = []
+            if cname not in ("ascii", "us-ascii"):
+                why.append(f"decoded as '{cname}': bytes above 0x7f that happen to form valid {cname} are kept as stray characters instead of being dropped")
+            if ename != "ignore":
+                why.append(f"errors={ename!r}: a title with a byte outside the codec raises instead of being read")
+            if not strips_nul:
+                why.append("the NUL padding is not removed")
+            insts.append(R.viol(rid, "char-decode", file, d0.lineno, "; ".join(why), construct=f"decode({cname!r}, errors={ename!r})"))
     # unpack loop: slices advance by the element size, little endian
     loop_ok = False
     for n in walk_no_nested(rm.node):
